@@ -7,6 +7,7 @@
 //! Every case runs the real crate in-process under `catch_unwind`; all randomness comes from one
 //! splitmix64 stream seeded by `--seed`.
 
+mod fixture;
 mod gen;
 mod ops;
 mod prng;
@@ -28,6 +29,26 @@ pub struct Out {
 }
 
 impl Out {
+    /// Append a case whose lines were produced elsewhere (end-to-end fixture runs).
+    pub fn raw_case(&mut self, family: &str, seed: u64, cfg_line: &str, lines: &[String], panic: Option<String>) {
+        let n = self.n;
+        self.n += 1;
+        let _ = writeln!(self.w, "CASE {n} family={family} seed={seed}");
+        let _ = writeln!(self.w, "{cfg_line}");
+        for l in lines {
+            let _ = writeln!(self.w, "{l}");
+            if l.starts_with("OP ") {
+                self.ops += 1;
+            }
+        }
+        if let Some(p) = panic {
+            self.panics += 1;
+            let _ = writeln!(self.w, "OBS panic {p}");
+        }
+        let _ = writeln!(self.w, "END");
+        *self.hist.entry(format!("family:{family}")).or_insert(0) += 1;
+    }
+
     /// Run one case: `f` drives the world; the trace of the case is appended to the output.
     pub fn case(&mut self, family: &str, seed: u64, cfg: &Cfg, f: impl FnOnce(&mut World)) {
         let mut w = World::new(cfg);
